@@ -204,6 +204,38 @@ func concRun(seed int64, barrier func()) ([]string, []otr3.ValidMessage) {
 		push(b, ts)
 		settle()
 	}
+	// key files read at the same time by every pair (each its own file, with its own account names)
+	barrier()
+	{
+		acct := func(i int) kfAcct {
+			k := testKeys[i]
+			return kfAcct{name: []byte(fmt.Sprintf("account-%d-of-pair-%s-%s", i, pairTag, strings.Repeat(pairTag, 20))), proto: []byte("prpl-" + pairTag),
+				p: k.PrivateKey.P, q: k.PrivateKey.Q, g: k.PrivateKey.G, y: k.PrivateKey.Y, x: k.X}
+		}
+		file := append(kfLibotrFile(acct(0))[:0:0], []byte("(privkeys\n")...)
+		for i := 0; i < 2; i++ {
+			one := kfLibotrFile(acct(i))
+			one = one[len("(privkeys\n") : len(one)-2]
+			file = append(file, one...)
+		}
+		file = append(file, []byte(")\n")...)
+		wrong, failed := 0, 0
+		for k := 0; k < 150; k++ {
+			as, err := otr3.ImportKeys(bytes.NewReader(file))
+			if err != nil || len(as) != 2 {
+				failed++
+				continue
+			}
+			for i, a := range as {
+				want := acct(i)
+				kk, ok := a.Key.(*otr3.DSAPrivateKey)
+				if a.Name != string(want.name) || a.Protocol != string(want.proto) || !ok || kk.X.Cmp(want.x) != 0 || kk.PrivateKey.Y.Cmp(want.y) != 0 {
+					wrong++
+				}
+			}
+		}
+		log = append(log, fmt.Sprintf("key file imports: %d failed, %d accounts differ from the file", failed, wrong))
+	}
 	_ = io.EOF
 	return log, held
 }
@@ -255,16 +287,32 @@ func init() {
 			// a barrier for the last phase: everybody waits until all n pairs have arrived (a pair that
 			// panicked before has arrived as well, see the deferred call)
 			var bmu sync.Mutex
-			arrived := 0
-			gate := make(chan struct{})
+			bcond := sync.NewCond(&bmu)
+			waiting, generation, gone := 0, 0, 0 // gone: pairs that panicked and will never arrive again
 			barrier := func() {
 				bmu.Lock()
-				arrived++
-				if arrived == n {
-					close(gate)
+				defer bmu.Unlock()
+				gen := generation
+				waiting++
+				if waiting+gone >= n {
+					waiting = 0
+					generation++
+					bcond.Broadcast()
+					return
+				}
+				for gen == generation {
+					bcond.Wait()
+				}
+			}
+			leave := func() {
+				bmu.Lock()
+				gone++
+				if waiting > 0 && waiting+gone >= n {
+					waiting = 0
+					generation++
+					bcond.Broadcast()
 				}
 				bmu.Unlock()
-				<-gate
 			}
 			for i := 0; i < n; i++ {
 				wg.Add(1)
@@ -275,18 +323,15 @@ func init() {
 							conc[i] = []string{fmt.Sprint("PANIC ", r)}
 						}
 					}()
-					reached := false
+					done := false
 					defer func() {
-						if !reached {
-							bmu.Lock()
-							arrived++
-							if arrived == n {
-								close(gate)
-							}
-							bmu.Unlock()
+						if !done {
+							leave() // (a panic: the others must not wait for this pair)
 						}
 					}()
-					conc[i], heldAll[i] = concRun(seed*100000+int64(i), func() { reached = true; barrier() })
+					conc[i], heldAll[i] = concRun(seed*100000+int64(i), barrier)
+					done = true
+					leave()
 				}(i)
 			}
 			wg.Wait()
